@@ -46,6 +46,11 @@ CHECKS = {
             "All sequences of up to N documents (quick 4, thorough 5) over 16 document kinds (valid maps, empty, '~', 'null', defines an anchor, aliases an anchor of an earlier document, type error in the first / last node, syntax error, unterminated flow, errors at the very first token, '...' end marker with trailing comment) rendered with 3 separator styles. For every history the real from_multiple, from_slice_multiple, read (drained with a hard item cap), from_str and from_reader are run on the stream and compared with the list obtained by classifying each document on its own text: batch = values of the non-null documents or Err; iterator = the same items in order, continuing after type-level errors, ending after the first syntax-level error, always terminating; single-document entry points reject any second document. stateright explores the full space (1+16+16^2+...), is run twice (state counts must agree) and its three 'sometimes' coverage properties must be discovered.",
             "Trusted: classification of a document on its own text (raw parser rejects = syntax-level). Whether the iterator can continue after an 'unknown anchor' parser error is treated as unspecified (either is accepted).",
             "DESIGN.md §3 C11"),
+    "C15": ("model_checking",
+            "explicit-state BFS (stateright) over call histories; each history replayed on a fresh OS thread with the real library as transition function; last call compared with the same call made first",
+            "Call alphabet of 41 calls: 17 base calls (successful parse, failure midway through an anchored node, failure inside an RcAnchor context, failure inside an RcRecursive in-progress context, budget breach, alias limit, missing field, a visitor that panics mid-document (caught), a streaming iterator advanced once and dropped, from_multiple failing on its second document, serialization with shared anchors, serialization into a failing writer, closure helper returning early, Rc sharing / weak / recursive parses, and two public probes that read the thread-local error-location fallback and the anchor-context stack) plus 3 outer parses x (no nested call + 7 calls nested inside a user Deserialize impl between an anchor definition and its alias). All histories of length <= 2 (quick) / <= 3 (thorough, 70k histories) are replayed on fresh OS threads; the observation of the last call (value, error variant, line/column, message, pointer-sharing) must equal its observation as first call on a fresh thread; nested calls must leave the outer result unchanged and return what they return alone. Run twice, state counts must agree.",
+            "Trusted: a fresh OS thread has clean thread-locals; the crate has no process-global mutable state (grep in DESIGN.md §1: only two thread_local cells are mutable).",
+            "DESIGN.md §3 C15"),
     "C12": ("model_checking",
             "bounded-exhaustive enumeration of scalar values x positions x serializer option vectors, identity round-trip oracle on the real serializer and deserializer",
             "All strings up to the length bound over a 52-symbol adversarial alphabet plus 150 look-alike words, in 12 positions (root, sequence item, nested item, map value/key, flow item/value/key, struct field, newtype/tuple variant payload, map inside sequence) under every combination of quote_all, yaml_12, prefer_block_scalars, compact_list_indent, tagged_enums x indent steps x two fold widths; all integer boundaries of every width; a complete f32 sub-lattice (thorough: all 2^32 patterns) and an f64 boundary lattice; chars, unit, options, byte arrays. Each value is serialized by the real serializer, must scan as exactly one document in saphyr-parser and must read back as the identical value; emitted floats must match the YAML float grammar.",
